@@ -159,7 +159,10 @@ fn main() {
         "violations": violations.len(),
     });
     let _ = std::fs::create_dir_all(format!("{}/evidence", verif_dir));
-    if ctx.only_sub.is_none() {
+    if std::env::var("VERIF_ONLY_FUZZ").is_ok() {
+        // debugging mode (campaigns without the proptest search): not a registered check, separate file
+        let _ = std::fs::write(format!("{}/evidence/{}.fuzzonly.json", verif_dir, id), serde_json::to_string_pretty(&evidence).unwrap());
+    } else if ctx.only_sub.is_none() {
         std::fs::write(format!("{}/evidence/{}.json", verif_dir, id), serde_json::to_string_pretty(&evidence).unwrap()).expect("write evidence");
     }
     for k in ctx.known.iter().filter(|k| k.property == id && k.status == "open") {
